@@ -319,6 +319,18 @@ def _norms(check: Check):
         it = g.generators[0].iter
         if isinstance(it, ast.Call) and ff.ext(it.func) in ('jax.tree_util.tree_leaves', 'jax.tree.leaves') and ff.param_of(it.args[0]) == sq.positional_params[0]:
           ok = True
+  if not ok:
+    # other accepted form: an explicit accumulation loop over the leaves,  acc = acc + vdot(x, x)  /  acc += vdot(x, x)
+    for n in ff.cfg.nodes:
+      if n.kind == 'for' and isinstance(n.ast.iter, ast.Call) and ff.ext(n.ast.iter.func) in ('jax.tree_util.tree_leaves', 'jax.tree.leaves') and \
+          ff.param_of(n.ast.iter.args[0]) == sq.positional_params[0] and isinstance(n.ast.target, ast.Name):
+        v = n.ast.target.id
+        for st in n.ast.body:
+          if isinstance(st, ast.AugAssign) and isinstance(st.op, ast.Add) and isinstance(st.value, ast.Call) and ff.ext(st.value.func) in (
+              'jax.numpy.vdot', 'jax.numpy.dot') and [txt(a) for a in st.value.args] == [v, v]:
+            ok = any(isinstance(rv, ast.Name) and rv.id == txt(st.target) for _, rv in ff.returns())
+    if not ok:
+      ok = None if not any(ff.ext(c.func) in ('jax.numpy.vdot', 'jax.numpy.dot', 'jax.numpy.sum', 'jax.numpy.square') for _, c in ff.calls()) else False
   check.ob('R-CLIP.norm', sq, 'sum(vdot(x, x) for x in leaves)', ok, 'squared norm sums vdot(x, x) over every leaf of the tree')
 
 
